@@ -372,6 +372,11 @@ def oracle_c03(rec, driver=None):
     # the sweep after each hook evaluates, in population order, the state the hook left behind
     evs = rec['events']
     lo, hi = budget(cfg['kind'], n)
+    if driver is not None:
+        # the same number computed in Lean from the call sites translated from the current source
+        mb = driver.ask(f"budget {cfg['kind']} {n}")
+        if mb != str(hi):
+            issues.append(dict(what='budget-table-mismatch', model=mb, table=hi, n=n))
     for hk, (i, e) in enumerate(hooks):
         post = e['after']['pop']
         k = i + 1
@@ -614,8 +619,34 @@ def oracle_c15(rec, driver=None):
                 if b['w'] != a['w']:
                     for p_ in range(n + 1):
                         lines.append(f"n.aiw {fbits(b['w_min'])} {fbits(b['w_max'])} {p_} {n}"); exps.append(b['w']); names.append(('w', p_, n)); prevs.append(None)
+        # the same updates as the translator read them from the current source (Generated/FormulasDefs), evaluated in
+        # Lean Float: every line below has a twin `fx sched …` line whose answer must coincide with the hand model's
+        def envs(d):
+            return ','.join(f'{k}={fbits(float(v))}' for k, v in d.items())
+        tl = []
+        for l in lines:
+            f = l.split()
+            b = lambda s_: bits2f(int(s_))
+            if f[0] == 'n.sat':
+                tl.append('fx sched sa_T ' + envs({'self.T': b(f[1]), 'self.beta': b(f[2])}) + ' -')
+            elif f[0] == 'n.fa':
+                tl.append('fx sched fa_alpha ' + envs({'self.alpha': b(f[1]), 'n_iterations': int(f[2])}) + ' -')
+            elif f[0] == 'n.wca':
+                tl.append('fx sched wca_dmax ' + envs({'self.d_max': b(f[1]), 'space.n_iterations': int(f[2])}) + ' -')
+            elif f[0] == 'n.par':
+                tl.append('fx sched ihs_PAR ' + envs({'self.PAR_min': b(f[1]), 'self.PAR_max': b(f[2]), 'space.n_iterations': int(f[3]), 't': int(f[4])}) + ' -')
+            elif f[0] == 'n.bw':
+                tl.append('fx sched ihs_bw ' + envs({'self.bw_min': b(f[1]), 'self.bw_max': b(f[2]), 'space.n_iterations': int(f[3]), 't': int(f[4])}) + ' -')
+            elif f[0] == 'n.aiw':
+                tl.append('fx sched aiwpso_w ' + envs({'self.w_min': b(f[1]), 'self.w_max': b(f[2]), 'p': int(f[3]), 'len(agents)': int(f[4])}) + ' -')
         if lines:
             outs = driver.ask_many(lines)
+            touts = driver.ask_many(tl)
+            for l, o, t_ in zip(tl, outs, touts):
+                stats['translated_schedule_checks'] = stats.get('translated_schedule_checks', 0) + 1
+                if o != t_ and not (o.isdigit() and t_.isdigit() and bits2f(int(o)) != bits2f(int(o)) and bits2f(int(t_)) != bits2f(int(t_))):
+                    issues.append(dict(what='schedule-mismatch', name='translated-source-vs-model', model=o, translated=t_, line=l))
+                    break
             wgroup = {}
             for l, o, x, nm, pv in zip(lines, outs, exps, names, prevs):
                 m = bits2f(o)
